@@ -711,8 +711,9 @@ func (e *Enc) encodeSortCall(common *ssa.CallCommon, st *State) bool {
 		qi, qi, qi, x, perm, qi, perm, qi, x, newArr, x, qi, oldArr, x, perm, qi, newArr, x, qi))
 	e.fact(fmt.Sprintf("(forall ((%s Int)) (! (=> (and (<= 0 %s) (< %s (s.len %s))) (and (<= 0 (%s %s)) (< (%s %s) (s.len %s)) (= (select %s (at (s.off %s) (%s %s))) (select %s (at (s.off %s) %s))))) :pattern ((select %s (at (s.off %s) %s)))))",
 		qi, qi, qi, x, inv, qi, inv, qi, x, newArr, x, inv, qi, oldArr, x, qi, oldArr, x, qi))
-	e.fact(fmt.Sprintf("(forall ((%s Int)) (! (=> (and (<= 0 %s) (< %s (s.len %s))) (and (= (%s (%s %s)) %s) (= (%s (%s %s)) %s))) :pattern ((%s %s)) :pattern ((%s %s))))",
-		qi, qi, qi, x, inv, perm, qi, qi, perm, inv, qi, qi, perm, qi, inv, qi))
+	// total bijection (identity outside [0,len)): inverse laws without a range guard
+	e.fact(fmt.Sprintf("(forall ((%s Int)) (! (and (= (%s (%s %s)) %s) (= (%s (%s %s)) %s)) :pattern ((%s %s)) :pattern ((%s %s))))",
+		qi, inv, perm, qi, qi, perm, inv, qi, qi, perm, qi, inv, qi))
 	// other arrays unchanged
 	e.fact(fmt.Sprintf("(forall ((%s Int)) (! (=> (not (= %s (s.arr %s))) (= (select %s %s) (select %s %s))) :pattern ((select %s %s))))", qi, qi, x, nh, qi, old, qi, nh, qi))
 	// cells of the same array outside the slice unchanged
